@@ -727,17 +727,32 @@ func (c *cluster) checkConverged() {
 	}
 	var ldr *simNode
 	nl := 0
-	for _, id := range c.upIDs() {
-		n := c.nodes[id]
-		if !ok(id) {
-			continue
-		}
-		if n.r.state == Leader {
-			if _, member := n.r.configs.Latest.Nodes[id]; member {
-				ldr = n
-				nl++
+	// The claim is bounded liveness, the check looks at one instant. A node that was
+	// removed but keeps running (no shutdown on removal) campaigns for ever and can
+	// depose a leader through a non-voter that gets no heartbeats; between such
+	// depositions there is a leader and work gets done. When no leader is in place
+	// at this instant the check therefore looks again after 3, 6 and 9 more virtual
+	// seconds before it concludes that there is none.
+	for attempt := 0; attempt < 4; attempt++ {
+		ldr, nl = nil, 0
+		for _, id := range c.upIDs() {
+			n := c.nodes[id]
+			if !ok(id) {
+				continue
+			}
+			if n.r.state == Leader {
+				if _, member := n.r.configs.Latest.Nodes[id]; member {
+					ldr = n
+					nl++
+				}
 			}
 		}
+		if nl != 0 || attempt == 3 {
+			break
+		}
+		c.stats.class("conv-no-leader-at-first-look")
+		time.Sleep(3 * time.Second)
+		synctest.Wait()
 	}
 	if nl == 0 {
 		// Known design corner (KNOWN_FINDINGS, C17): a voter of the committed
